@@ -45,6 +45,9 @@ type accAnnotations struct {
 	TrackedTypes map[string]any                   `json:"tracked_types"`
 	AtomicTypes  struct{ Types []string }         `json:"atomic_types"`
 	UnsafePointeeTypes struct{ Types []string } `json:"unsafe_pointee_types"`
+	SafePointeeTypes   struct {
+		Types []struct{ Type, Why string }
+	} `json:"safe_pointee_types"`
 	LockAliases  []struct{ Expr, Is, Why string } `json:"lock_aliases"`
 	ResultLocks  []struct {
 		Callee string
@@ -279,6 +282,8 @@ type accExtractor struct {
 	rows          []*accRow
 	unresolved    []string
 	copiedLocks   []string
+	safePointee   map[string]bool
+	refFields     []string // "T.f type: class" for every reference-typed field of a tracked struct
 	copiedSeen    map[string]bool
 	usedAnn       map[string]bool
 	nclosure      map[string]int
@@ -432,6 +437,61 @@ func extractAccesses(repo, root string) error {
 			x.trackedNames[name] = true
 		}
 	}
+	// reference-typed fields of tracked structs: every object reachable through a field is either tracked itself,
+	// declared NOT safe for concurrent use (unsafe_pointee_types: calls through the field are pointee rows), or
+	// declared safe by its own contract (safe_pointee_types, with the reason) — anything else is unclassified
+	x.safePointee = map[string]bool{}
+	for _, t := range x.ann.SafePointeeTypes.Types {
+		x.safePointee[t.Type] = true
+	}
+	for tn, name := range x.tracked {
+		st := tn.Type().Underlying().(*types.Struct)
+		for i := 0; i < st.NumFields(); i++ {
+			f := st.Field(i)
+			ft := types.Unalias(f.Type())
+			ref := false
+			switch u := ft.(type) {
+			case *types.Pointer:
+				ref = true
+				if n := namedOf(u); n != nil {
+					if _, tr := x.tracked[n.Obj()]; tr || isSyncType(n) || x.trackedNames[x.typeDisplay(n.Obj())] {
+						ref = false
+					}
+					if x.atomicTy[x.typeDisplay(n.Obj())] {
+						ref = false
+					}
+				}
+			case *types.Named:
+				if _, isIface := u.Underlying().(*types.Interface); isIface {
+					ref = true
+				}
+			case *types.Interface:
+				ref = true
+			}
+			if !ref {
+				continue
+			}
+			ts := types.TypeString(f.Type(), func(p *types.Package) string {
+				if lp, ok := x.ourPkgs[p]; ok {
+					if lp.dir == "." {
+						return ""
+					}
+					return lp.dir
+				}
+				return p.Path()
+			})
+			class := "unclassified"
+			switch {
+			case x.unsafePointee[ts]:
+				class = "unsafe"
+			case x.safePointee[ts]:
+				class = "safe-by-contract"
+				x.usedAnn["safe_pointee "+ts] = true
+			}
+			x.refFields = append(x.refFields, fmt.Sprintf("%s.%s %s: %s", name, f.Name(), ts, class))
+		}
+	}
+	sort.Strings(x.refFields)
 	// function nodes
 	for _, p := range x.pkgs {
 		for _, f := range p.files {
@@ -2112,6 +2172,13 @@ func (x *accExtractor) emit(root string) error {
 		}
 	}
 	fmt.Fprintf(&sk, "/-- Lock / Unlock calls whose mutex is reached through a by-value receiver or struct parameter: the call locks a\n    private copy, which excludes nobody; such a call contributes no hold to the table and is reported -/\ndef copiedLockOps : Nat := %d\n\n", len(x.copiedLocks))
+	unclassified := 0
+	for _, r := range x.refFields {
+		if strings.HasSuffix(r, ": unclassified") {
+			unclassified++
+		}
+	}
+	fmt.Fprintf(&sk, "/-- reference-typed fields of tracked structs (interfaces, pointers to untracked types): %d in total; this many are\n    neither declared unsafe (calls through them are `pointee:` rows) nor declared safe by their own contract -/\ndef unclassifiedRefFields : Nat := %d\n\n", len(x.refFields), unclassified)
 	fmt.Fprintf(&sk, "/-- tokens whose ordering claim is an assumption (ownership hand-offs, sync.Once) -/\ndef plainTokenIds : List Mutex := [%s]\n\n", strings.Join(plainIDs, ", "))
 	fmt.Fprintf(&sk, "/-- closed-flag barrier tokens with their guard mutex: (token, guard) -/\ndef barrierTokens : List (Mutex × Mutex) := [%s]\n\n", strings.Join(barrierIDs, ", "))
 	fmt.Fprintf(&sk, "/-- ordering-protocol tokens: not locks, not subject to the lockset analysis -/\ndef tokenIds : List Mutex := [%s]\n\n", strings.Join(tokenIDs, ", "))
@@ -2207,6 +2274,7 @@ func (x *accExtractor) emit(root string) error {
 		Excluded    []*accRow           `json:"excluded"`
 		Unresolved  []string            `json:"unresolved"`
 		CopiedLocks []string            `json:"copied_locks"`
+		RefFields   []string            `json:"reference_fields"`
 		Confinement []string            `json:"confinement"`
 		Used        []string            `json:"annotations_used"`
 		Entry       map[string][]string `json:"entry_locksets"`
@@ -2218,7 +2286,7 @@ func (x *accExtractor) emit(root string) error {
 		SkLockOps   int                 `json:"lock_ops_in_skeletons"`
 		Aliases     []string            `json:"pointer_aliases"`
 		CHAEdges    int                 `json:"interface_call_edges"`
-	}{Rows: rows, Excluded: excluded, Unresolved: x.unresolved, CopiedLocks: x.copiedLocks, Confinement: confinement, Used: used, Entry: map[string][]string{}, Fields: len(fields), Locks: locks}
+	}{Rows: rows, Excluded: excluded, Unresolved: x.unresolved, CopiedLocks: x.copiedLocks, RefFields: x.refFields, Confinement: confinement, Used: used, Entry: map[string][]string{}, Fields: len(fields), Locks: locks}
 	for _, p := range racy {
 		out.Racy = append(out.Racy, jpair{p.A.Field, p.A, p.B})
 	}
